@@ -138,6 +138,15 @@ CLAIMED = {
              "callbacks/allocator and observational independence are not decided. Known finding K4 (source handed to the pool thread unreferenced).",
         tech="writes-to-globals effect analysis over the call graph + guard tables + who-calls",
         ref="DESIGN.md §4 C14"),
+    "C03": dict(
+        text="Static rules for the receive loop: errno typestate (a read of errno that feeds the loop's error variable must be CLEAN: reset since "
+             "the last call that may run a user callback), who writes quit/quit_code and who may call loop_quit (error arm only under err and "
+             "neither EINTR nor EAGAIN), loop condition atoms, quit code read before the automatic release, agreement of the two event producers on "
+             "the initialised field set {type, payload, userdata, ts} (followed through the process_* callbacks and push_evt), owner = p->mod, "
+             "EPOLLONESHOT wiring and one-shot removal from the registries, forced one-shot kinds, dispatch vs. blocking loop reaching the same "
+             "primitives under the same stop atoms. Which ready sources of a batch are delivered and equality of delivery sequences are not decided.",
+        tech="may-typestate dataflow with user-callback kill set, who-writes/who-calls, sibling (effect-set) comparison through resolved callbacks",
+        ref="DESIGN.md §4 C03"),
 }
 
 NOT_APPLICABLE = {
